@@ -533,11 +533,12 @@ func ruleTagOctets(r *Run, p *Prog) {
 
 // ruleBuildAgreement: two places where the JSON build and the binary build (encoder + decoder)
 // must use the very same ingredient, or the decoded binary log differs from the JSON log:
-//  B64   the base64 alphabet of RawCBOR data URLs: the JSON build's appendCBOR and the CBOR decoder
-//        reference the same encoding/base64 Encoding variable;
-//  HOOK  both builds bind the encoder package's JSONMarshalFunc to a function that reads
-//        zerolog.InterfaceMarshalFunc when it is called (a value copied at init time ignores a
-//        marshaler installed later, in one build only).
+//
+//	B64   the base64 alphabet of RawCBOR data URLs: the JSON build's appendCBOR and the CBOR decoder
+//	      reference the same encoding/base64 Encoding variable;
+//	HOOK  both builds bind the encoder package's JSONMarshalFunc to a function that reads
+//	      zerolog.InterfaceMarshalFunc when it is called (a value copied at init time ignores a
+//	      marshaler installed later, in one build only).
 func ruleBuildAgreement(r *Run, pj, pb *Prog) {
 	b64vars := func(f *ssa.Function) map[string]bool {
 		out := map[string]bool{}
